@@ -250,15 +250,18 @@ Proof.
   destruct i; cbn [Geo.update_nth map nth_error] in *; [inversion ET; subst x; reflexivity|]. f_equal. now apply IH.
 Qed.
 
-Lemma proj_anchored h bs g h' g' : GInv h g -> anchored h bs g = Some (h', g') -> steps_to (proj g) (proj g').
+Lemma proj_anchored_n h bs count g h' g' : GInv h g -> nlen bs <= count -> anchored_n h bs count g = Some (h', g') -> steps_to (proj g) (proj g').
 Proof.
-  intros I E. unfold anchored in E. destruct bs as [|b0 bs0] eqn:Ebs.
-  - cbn in E. inversion E; subst h' g'. apply steps_refl.
-  - rewrite <- Ebs in *. assert (Hne : bs <> []) by (rewrite Ebs; discriminate).
-    rewrite (arena_read_n_as_copy h (gcache_ g) bs (gi_cache h g I) (gi_heap h g I) Hne) in E.
-    destruct (arena_copy h (gcache_ g) bs None) as [[[[[hp kp] sp] o'] f']|] eqn:EA; [|discriminate].
-    destruct (arena_copy_spec _ _ _ _ _ _ _ _ _ (gi_cache h g I) (gi_heap h g I) EA)
-      as (_ & Hk' & Hh' & _ & Hframe & Hok & Hbytes & Hle & Enew & Hend & _ & _).
+  intros I Hcount E. unfold anchored_n in E.
+  destruct (N.eq_dec count 0) as [Hz|Hnz].
+  { subst count. assert (bs = []) by (apply nlen_zero; lia). subst bs. cbn in E. inversion E; subst h' g'. apply steps_refl. }
+  assert (Hcpos : 0 < count) by lia.
+  destruct (arena_read_n h (gcache_ g) bs count) as [[[[hp kp'] sp] ap]|] eqn:EA; [|discriminate].
+  destruct (arena_read_n_spec _ _ _ _ _ _ _ _ (gi_cache h g I) (gi_heap h g I) Hcpos Hcount EA)
+    as (kp & -> & Hk' & Hh' & _ & Hframe & Hbytes & Enew & Hle & Hok & Hend & Ea & _).
+  destruct bs as [|b0 bs0] eqn:Ebs.
+  - rewrite Enew in E. cbn in E. inversion E; subst h' g'. apply steps_refl.
+  - rewrite <- Ebs in *. assert (Hne : bs <> []) by (rewrite Ebs; discriminate). specialize (Hok Hne). subst ap.
     pose proof (sl_len_pos hp sp Hok) as Hpos.
     destruct (sl_len sp =? 0) eqn:E0; [apply N.eqb_eq in E0; lia|].
     destruct (push hp sp (set_cache (Some kp) g)) as [[h2 g2]|] eqn:EP; [|discriminate].
@@ -318,6 +321,9 @@ Proof.
       rewrite map_app. reflexivity. }
     rewrite Ef. apply steps_one.
 Qed.
+Lemma proj_anchored h bs g h' g' : GInv h g -> anchored h bs g = Some (h', g') -> steps_to (proj g) (proj g').
+Proof. intros I E. apply (proj_anchored_n h bs (nlen bs) g h' g' I (N.le_refl _)). exact E. Qed.
+
 
 (* some pipe state is always related to a Geo state (marks do not matter for R) *)
 Definition pipe_of (h : heap) (g : giov) : Pipe.st :=
@@ -331,7 +337,7 @@ Qed.
 (* ---- every operation, every history ---- *)
 Theorem g1step_anchors h g o h' g' x : GInv h g -> g1step h g o = Some (h', g', x) -> steps_to (proj g) (proj g').
 Proof.
-  intros I E. destruct o as [bs|bs|bs|items|bs|p|b src|k|k| |k| | |k]; cbn [g1step] in E.
+  intros I E. destruct o as [bs|bs|bs|items|bs|p|b src|k|k| |k| | |k|bs count]; cbn [g1step] in E.
   - destruct (push h (SExt bs) g) as [[h1 g1]|] eqn:EP; [|discriminate]. inversion E; subst h1 g1 x.
     destruct bs as [|b0 bs0] eqn:Eb.
     + cbn in EP. inversion EP. apply steps_refl.
@@ -369,6 +375,8 @@ Proof.
   - inversion E; subst h' g' x. apply (steps_one Anchors.OpClear).
   - inversion E; subst h' g' x. apply steps_refl.
   - destruct (ensure_capacity h (gcache_ g) k) as [[h1 k1]|]; [|discriminate]. inversion E; subst h1 g' x. apply steps_refl.
+  - destruct (nlen bs <=? count) eqn:Ec; [|discriminate]. apply N.leb_le in Ec.
+    destruct (anchored_n h bs count g) as [[h1 g1]|] eqn:EP; [|discriminate]. inversion E; subst h1 g1 x. eapply proj_anchored_n; eauto.
 Qed.
 
 Lemma proj_empty : proj empty_iov = {| Anchors.slices := []; Anchors.anchors := [] |}.
